@@ -22,7 +22,7 @@ RULE = ("cases: trees with 1-3 forever jobs per level. non-trivial: a successful
         "distinct scenario digest")
 ASSUMPTIONS = RT_ASSUMPTIONS
 
-PROFILE = S.GENERAL.but(p_forever=38, p_never=50, p_sched_forever=25, p_nested=24,
+PROFILE = S.GENERAL.but(p_cexc=15, p_forever=38, p_never=50, p_sched_forever=25, p_nested=24,
                         p_raise=10, p_critical=25, p_edge=32, p_wild=15,
                         timeouts=((None, 8), (2.5, 2), (3, 1), (4, 2), (4.5, 1), (6, 2), (8, 1)),
                         cs=((0, 3), (1, 3), (2, 2)),
